@@ -190,6 +190,25 @@ def shard_js(shard, nshards, tier, seed, scratch):
                     seen.add((lang, 'one-query'))
                     failures.append({'leg': 'js', 'clause': lang + '-query-result-all-pairs-in-one-query', 'detail': {'text': t, 'pattern': p, 'got': r[0], 'expected': exp, 'rows_in_query': len(rows)}, 'case': {'kind': 'allpairs', 'lang': lang}})
         stats.bump('all-pairs-in-one-query', len(rows))
+        # long texts / patterns (beyond any small-integer, token-count or length threshold): 16..20, 255..260, 1000 characters
+        rows = []
+        for n in (16, 17, 18, 33, 64, 65, 255, 256, 257, 258, 300, 1000):
+            t = ('ab.' * n)[:n]
+            rows += [[t, t], [t, '_' * n], [t, '_' * (n - 1)], [t, '_' * (n + 1)], [t, '%' + t[1:]], [t, t[:-1] + '%'], [t, t[:n // 2] + '%' + t[n // 2:]], [t, t[:n // 2] + '_' + t[n // 2 + 1:]],
+                     [t, ('a_.' * n)[:n]], [t, t.replace('.', '\\.')], [t + 'x', t], [t, t + '_'], ['a' * n, 'a' * (n - 1) + '_'], ['a' * n + '.', 'a' * n + '.'], ['a' * n + 'x', 'a' * n + '.']]
+        rows += [[('ab.' * n)[:n], '_%' * (n // 2)] for n in (16, 17, 18)]      # (longer chains of `.*` backtrack exponentially in both regex engines: a cost, not a result)
+        for lang in ('js', 'py'):
+            res = drv.query_table('select like(a1, a2)', rows) if lang == 'js' else engine.run_table('select like(a1, a2)', [list(r) for r in rows], None, None, None)
+            if res['error'] is not None:
+                raise Violation(lang + '-error', {'text': 'long pairs', 'pattern': 'long pairs', 'error': res['error']})
+            for (t, p), r in zip(rows, res['out']):
+                exp = refmodel.ref_like(t, p)
+                stats.evaluations += 1
+                stats.nontrivial_counted += 1
+                if r[0] is not exp and (lang, 'long') not in seen:
+                    seen.add((lang, 'long'))
+                    failures.append({'leg': 'js', 'clause': lang + '-query-result-long-pair', 'detail': {'text_length': len(t), 'pattern_length': len(p), 'text': t[:40] + '...', 'pattern': p[:40] + '...', 'got': r[0], 'expected': exp}, 'case': {'kind': 'jspair' if lang == 'js' else 'pair', 'text': t, 'pattern': p}})
+        stats.bump('long-pairs', len(rows))
         # patterns / texts that are member names of the host languages' built-in objects (a cache keyed by pattern in a plain object / dict)
         rows = [[t, p] for t in IDENT_WORDS + ['xxprotoxx', 'constructors', ''] for p in IDENT_WORDS + ['const%', '%String', '__proto%', '%']]
         res = drv.query_table('select like(a1, a2)', rows)
